@@ -38,9 +38,9 @@ vlib.standard_check({
     "prop_module": "GateryModel.Properties.C17",
     "exe": "gv_c17",
     "harness": "c17",
-    # harness args after the seed: <ncases> <maxw>; 36 primitive slots per round, one width per slot and round
-    "streams": {"quick": [[720, 20]], "thorough": [[4680, 130], [1440, 20], [1080, 64]]},
-    "search": [[1440, 24], [1440, 70]],
+    # harness args after the seed: <ncases> <maxw>; 37 primitive slots per round, one width per slot and round
+    "streams": {"quick": [[740, 20]], "thorough": [[4810, 130], [1480, 20], [1110, 64]]},
+    "search": [[1480, 24], [1480, 70]],
     "signature": signature,
     "eval_key": "ops",
     "nontrivial": lambda t: sum(v for k, v in t.get("hist", {}).items() if not k.endswith(":err")),
@@ -48,7 +48,8 @@ vlib.standard_check({
             "number of adder operands); widths swept 0/1..maxw systematically first, then random with 2^k-1/2^k/2^k+1 bias; vectors exhaustive "
             "when the circuit has <= 12 input bits, else 48-64 structured-random vectors (0, 1, all-ones, 2^k, 2^k-1, sparse, dense, leading/"
             "trailing zero runs); counters: 40-300 clock cycles of inc/dec/both/idle/load runs; evaluation = one simulated vector or clock cycle, "
-            "each compared with the structural model (DIFF) and with the arithmetic definition (PROPFAIL); malformed-parameter stream 'bad' must throw",
+            "each compared with the structural model (DIFF) and with the arithmetic definition (PROPFAIL); pipelined variants (registered priority tree, "
+            "pipelined divider) are driven with 40-90 cycle input streams and compared against the delayed definition; malformed-parameter stream 'bad' must throw",
     "trusted_base": ["Lean 4.33 kernel", "axioms: propext, Classical.choice, Quot.sound only (audited per theorem)",
                      "GateryModel/C17/Spec.lean (popcount, lowest/highest set bit, reflected Gray code, n/d, Int.tdiv, modulo-E counter, clamp, "
                      "carry-less product / polynomial remainder) as the meaning of 'mathematical definition'",
@@ -56,8 +57,9 @@ vlib.standard_check({
                      "utils::nextPow2 / Log2C / BitWidth::count/last modelled as Nat.log2 formulas (values cross-checked per case)"],
     "level_text": "Structural Lean models of the scl generators (same loops, chunking, widths, guards) proved equal to their arithmetic definitions for all "
                   "widths/values/parameters; models tied to the real circuits by simulating them on generated widths and inputs and diffing against model and definition.",
-    "assumptions": ["pipelined longDivision (stepsPerPipelineReg > 0, needs retiming) not covered; priorityEncoderTree(registerStep=true) is covered by "
-                    "correspondence + definition check on input streams, without a theorem",
+    "assumptions": ["pipelined longDivision (stepsPerPipelineReg > 0, registers placed by retiming) is covered by correspondence on input streams only: "
+                    "latency formula + value, no register-level model; priorityEncoderTree(registerStep=true) has a register-level model and a theorem "
+                    "for balanced chunkings",
                     "add()'s carry vector and CrcState/crcDef agreement are covered by correspondence + definition check only (no theorem)",
                     "GCD and primitives not named in the property are out of scope",
                     "inputs are fully defined (no 'x' propagation claims)"],
